@@ -15,7 +15,9 @@ def lib_delivery(dialect, defs_dir, stream):
     pl._deserialize_packet = ds
     pl._process_packet = lambda t, p: None
     try:
-        pl.play(stream, True); tail = 'clean'
+        with common.time_limit(max(20.0, len(stream) / 5000.0)): pl.play(stream, True)
+        tail = 'clean'
+    except common.HangError: tail = 'HANG'          # the play loop did not return: the property's termination clause
     except struct.error: tail = 'headercut'
     except Exception as e: tail = 'other:' + type(e).__name__
     return ' '.join([tail] + seen)
@@ -151,7 +153,9 @@ def run(ctx):
         def play(s, rep=rep):
             pl = recordings.make_player(rep); rec = recordings.Recorder(pl)
             try:
-                pl.play(s, False)
+                try:
+                    with common.time_limit(max(120.0, len(s) / 5000.0)): pl.play(s, False)
+                except common.HangError: return ['HANG']
                 return [l for l in rec.trace if not l.startswith(('L ', 'LP '))] + recordings.dump_entities(pl._battle_controller)
             finally: rec.close()
         pl0 = recordings.make_player(rep); dialect = recordings.dialect_of(pl0)
